@@ -91,8 +91,15 @@ int is_ipv6(const char *s, const char *e)   { return ls_call(F_IPV6, s, e); }
 #endif
 #ifndef LS_NO_UDOM
 static bool ls_udom_tld_check;
+#ifdef HAVE_IDNKIT
+static idn_resconf_t ls_udom_ctx; static idn_action_t ls_udom_actions;
+int is_utf8_domain(idn_resconf_t ctx, idn_action_t actions, idn_result_t *r, const char *s, const char *e, bool tld_check)
+{
+    ls_udom_ctx = ctx; ls_udom_actions = actions;
+#else
 int is_utf8_domain(int *r, const char *s, const char *e, bool tld_check)
 {
+#endif
     long so = s - ls_base, eo = e - ls_base;
     if (so < 0 || eo < so || eo > ls_buflen) ls_bad_range = true;
     ls_count[F_UDOM]++;
